@@ -129,6 +129,17 @@ class SimFS(MemoryFileSystem):
     root_marker = "/"
     cachable = True
 
+    # fsspec derives the instance token from the pid and the creating thread's ident and
+    # dask puts it into task key names (read_bytes), which decide scheduling tie-breaks:
+    # pin it, or one seed would not be one execution
+    @property
+    def _fs_token_(self):
+        return "simfs-pinned-token"
+
+    @_fs_token_.setter
+    def _fs_token_(self, value):
+        pass
+
     @classmethod
     def _strip_protocol(cls, path):
         if isinstance(path, list):
